@@ -26,9 +26,9 @@ p = os.path.join(V, "DESIGN.md")
 s = open(p).read()
 head = "| seed | what it needs to manifest | caught by own check | rule(s) | other checks that also fire |\n|---|---|---|---|---|\n"
 a = s.index("| seed | what it needs to manifest | caught by own check | rule(s) | other checks that also fire |")
-b = s.index("\nMissed:", a)
+b = s.index("\nMissed", a)
 s = s[:a] + head + "\n".join(rows) + "\n" + s[b:]
 s = re.sub(r"\*\*\d+ of \d+ are caught by the targeted property's own check\.\*\*", "**%d of %d are caught by the targeted property's own check.**" % (own_n, len(rows)), s)
-s = re.sub(r"(\d+|__N__) changes were produced in (two|three|four|five) waves", "%d changes were produced in four waves" % len(rows), s)
+s = re.sub(r"(\d+|__N__) changes were produced in (two|three|four|five) waves", "%d changes were produced in five waves" % len(rows), s)
 open(p, "w").write(s)
 print(own_n, "of", len(rows))
